@@ -564,24 +564,26 @@ func genFewTargets(r *gen.Rand, thorough bool) (Input, string) {
 	return in, "fewtargets"
 }
 
-// the witnesses of the refutation theorems in props/C02.v, always run first
+// regression cases, always run first: the witnesses of the repaired defects C02-a, C02-a2, C02-b,
+// C02-d (they must pass now; the old behaviour is monitor code 3, 4, 5, 8), the witnesses of the
+// recorded DEPLOY findings C02-c / C02-a3 and of the remaining refutation theorem in props/C02.v
 func corpus() []job {
 	t := func(crit bool, mode string, host int) c0203.Task { return c0203.Task{Crit: crit, Mode: mode, Host: host} }
 	var js []job
 	add := func(kind string, in Input) { js = append(js, job{Kind: kind, In: in}) }
-	// C02-b: one non-critical task, error reply at START
+	// C02-b (repaired): one non-critical task, error reply at START: the run starts
 	add("corpus-single-noncritical", Input{Tasks: []c0203.Task{t(false, "direct", 1)}, Launch: []string{"run"}, Cfg: []string{"ack"},
 		Ops: []Op{{Kind: "cmd", Ev: "START", Oc: []string{"errsrc"}}}})
-	// C02-a: all (non-critical) tasks dead, START has nothing to command
+	// C02-a (repaired): all (non-critical) tasks dead, START has nothing to command and succeeds
 	add("corpus-zero-targets", Input{Tasks: []c0203.Task{t(false, "basic", 1), t(false, "fairmq", 2)}, Launch: []string{"run", "run"}, Cfg: []string{"ack", "ack"},
 		Ops: []Op{{Kind: "kill", I: 0}, {Kind: "kill", I: 1}, {Kind: "cmd", Ev: "START", Oc: []string{"ack", "ack"}}}})
-	// C02-a: workflow with a call role only: CONFIGURE never returns
+	// C02-a2 (repaired): workflow with a call role only: CONFIGURE returns at once
 	add("corpus-no-tasks-configure", Input{NCalls: 1, Tasks: []c0203.Task{}, Launch: []string{}, Cfg: []string{}})
-	// C02-a: workflow without any role: DEPLOY times out
+	// C02-a3: workflow without any role: DEPLOY times out
 	add("corpus-no-roles", Input{Tasks: []c0203.Task{}, Launch: []string{}, Cfg: []string{}})
 	// C02-c: the non-critical task fails at launch, the critical one runs
 	add("corpus-deploy-noncritical", Input{Tasks: []c0203.Task{t(true, "direct", 1), t(false, "basic", 2)}, Launch: []string{"run", "fail"}, Cfg: []string{"ack", "ack"}})
-	// C02-d: critical failure at START: ERROR without an error reply
+	// C02-d (repaired): critical failure at START: ERROR, and the request returns the error
 	add("corpus-critical-failure", Input{Tasks: []c0203.Task{t(true, "fairmq", 1), t(false, "basic", 2)}, Launch: []string{"run", "run"}, Cfg: []string{"ack", "ack"},
 		Ops: []Op{{Kind: "cmd", Ev: "START", Oc: []string{"errerr", "ack"}}}})
 	// the partial theorem's side: two targets, the non-critical one fails in every way, all goes on
@@ -591,6 +593,23 @@ func corpus() []job {
 	// critical launch failures: failed, silent, host not offered
 	add("corpus-deploy-critical-fail", Input{Tasks: []c0203.Task{t(true, "direct", 1), t(true, "basic", 2)}, Launch: []string{"run", "fail"}, Cfg: []string{"ack", "ack"}})
 	add("corpus-deploy-critical-nooffer", Input{Tasks: []c0203.Task{t(true, "direct", 1), t(false, "basic", 2)}, Launch: []string{"nooffer", "run"}, Cfg: []string{"ack", "ack"}})
+	// C02-b (repaired), the configureTasks side: the only task is non-critical and fails the CONFIGURE
+	// of the creation, then STOP, RESET and a second CONFIGURE in every failure kind
+	add("corpus-single-noncritical-all", Input{Tasks: []c0203.Task{t(false, "fairmq", 2)}, Launch: []string{"run"}, Cfg: []string{"errerr"},
+		Ops: []Op{{Kind: "cmd", Ev: "START", Oc: []string{"sendfail"}}, {Kind: "cmd", Ev: "STOP", Oc: []string{"errsrc"}},
+			{Kind: "cmd", Ev: "RESET", Oc: []string{"errerr"}}, {Kind: "cmd", Ev: "CONFIGURE", Oc: []string{"errsrc"}}}})
+	// the single commanded task is critical: its failure still fails the command (both branches)
+	add("corpus-single-critical-configure", Input{Tasks: []c0203.Task{t(true, "direct", 1)}, Launch: []string{"run"}, Cfg: []string{"errsrc"}})
+	add("corpus-single-critical-stop", Input{Tasks: []c0203.Task{t(true, "basic", 3)}, Launch: []string{"run"}, Cfg: []string{"ack"},
+		Ops: []Op{{Kind: "cmd", Ev: "START", Oc: []string{"ack"}}, {Kind: "cmd", Ev: "STOP", Oc: []string{"sendfail"}}}})
+	// C02-a / C02-a2 (repaired): every transition with nothing to command, through ControlEnvironment
+	add("corpus-zero-targets-walk", Input{Tasks: []c0203.Task{t(false, "direct", 1), t(false, "basic", 3)}, Launch: []string{"run", "run"}, Cfg: []string{"ack", "ack"},
+		Ops: []Op{{Kind: "cmd", Ev: "START", Oc: []string{"ack", "ack"}}, {Kind: "kill", I: 1}, {Kind: "kill", I: 0},
+			{Kind: "cmd", Ev: "STOP", Oc: []string{"errsrc", "ack"}}, {Kind: "cmd", Ev: "RESET", Oc: []string{"ack", "ack"}},
+			{Kind: "cmd", Ev: "CONFIGURE", Oc: []string{"ack", "sendfail"}}, {Kind: "cmd", Ev: "START", Oc: []string{"ack", "ack"}}}})
+	add("corpus-no-tasks-walk", Input{NCalls: 1, Tasks: []c0203.Task{}, Launch: []string{}, Cfg: []string{},
+		Ops: []Op{{Kind: "cmd", Ev: "START", Oc: []string{}}, {Kind: "cmd", Ev: "STOP", Oc: []string{}}, {Kind: "cmd", Ev: "RESET", Oc: []string{}},
+			{Kind: "cmd", Ev: "CONFIGURE", Oc: []string{}}}})
 	return js
 }
 
